@@ -44,7 +44,7 @@ def check(run):
         for i in range(0, len(shapes), nmax):
             items = shapes[i:i + nmax]
             pp = permsN if len(items) == nmax else [list(p) for p in itertools.permutations(range(1, len(items) + 1))]
-            jobs.append({"k": "sortset", "eco": e, "items": items, "part": [part[e].get(t, 0) for t in items], "perms": rnd.sample(pp, min(len(pp), 24))})
+            jobs.append({"k": "sortset", "eco": e, "items": items, "part": [vlib.part_of(e, t) for t in items], "perms": rnd.sample(pp, min(len(pp), 24))})
         for s in range(nsets):
             n = rnd.choice([1, 2, 3, 4, nmax, nmax]) if s else nmax
             items = [rnd.choice(pool) for _ in range(n)]
@@ -53,7 +53,7 @@ def check(run):
                 perms = permsN
             else:
                 perms = [list(p) for p in itertools.permutations(range(1, n + 1))]
-            jobs.append({"k": "sortset", "eco": e, "items": items, "part": [part[e].get(t, 0) for t in items], "perms": perms})
+            jobs.append({"k": "sortset", "eco": e, "items": items, "part": [vlib.part_of(e, t) for t in items], "perms": perms})
             for p in rnd.sample(perms, max(1, len(perms) // 16)):
                 cliruns.append({"tag": "sort", "argv": [check_c15.codes(x) for x in [e, "sort"] + [items[i - 1] for i in p]]})
             # the same list with blank-padded spellings of some members (valid inputs; the CLI must print exactly what
@@ -64,13 +64,13 @@ def check(run):
         # multisets the pre-sample suggests are ordered inconsistently (generator heuristic; TLC judges the real sort)
         for trip in getattr(run, "suspects", {}).get(e, [])[:8]:
             items = trip + [rnd.choice(pool) for _ in range(2)]
-            jobs.append({"k": "sortset", "eco": e, "items": items, "part": [part[e].get(t, 0) for t in items], "perms": [list(p) for p in itertools.permutations(range(1, 6))]})
+            jobs.append({"k": "sortset", "eco": e, "items": items, "part": [vlib.part_of(e, t) for t in items], "perms": [list(p) for p in itertools.permutations(range(1, 6))]})
         if not quick:   # longer lists, sampled orders
             for _ in range(6):
                 n = rnd.choice([7, 12, 24, 64])
                 items = [rnd.choice(pool) for _ in range(n)]
                 perms = [rnd.sample(range(1, n + 1), n) for _ in range(40)]
-                jobs.append({"k": "sortset", "eco": e, "items": items, "part": [part[e].get(t, 0) for t in items], "perms": perms})
+                jobs.append({"k": "sortset", "eco": e, "items": items, "part": [vlib.part_of(e, t) for t in items], "perms": perms})
         # invalid members: the CLI must fail, name the offending text, print no result
         rej = [t for t, _ in U[e] if t not in set(acc[e])] or ["not a version"]
         for _ in range(4 if quick else 20):
